@@ -30,7 +30,7 @@ META = {
         "R01.7": "printing",
     },
     "trusted_base": ["std checked_*/saturating_*/Ord::min/max/clamp, OrderedFloat arithmetic and comparisons", "stack primitive summaries (verified by C02 R02.2 / C04)", "uecfacts driver + uecheck rule engine (pushfx)"],
-    "assumptions": ["S1: every stack holds at most max_stack_size elements at instruction entry (established by C04 R04.1 and the builder typestate C19)"],
+    "assumptions": ["S1: every stack holds at most max_stack_size elements at instruction entry (established by C04 R04.1 and the builder typestate C19)", "S2: HasStack::stack::<T>() and stack_mut::<T>() name the same stack (decided for the derived impls by C19's accessor clause; hand-written impls are the user's)"],
     "not_decided": ["numeric values beyond primitive identity; NaN/-0.0 ordering; Display; whole-program induction"],
 }
 
